@@ -78,6 +78,12 @@ PLANS = {
     },
     "C19": simple("C19"),
 }
+PLANS["C10"]["quick"].append({"cfg": "dbg", "prof": "C10zst", "runs": 100_000})
+PLANS["C10"]["thorough"] += [{"cfg": c, "prof": "C10zst", "runs": 4_000_000} for c in ("dbg", "rel")]
+PLANS["C13"]["quick"].append({"cfg": "dbg", "prof": "C13io", "runs": 100_000})
+PLANS["C13"]["thorough"] += [{"cfg": c, "prof": "C13io", "runs": 4_000_000} for c in ("dbg", "rel")]
+PLANS["C17"]["quick"].append({"cfg": "dbg", "prof": "C17big", "runs": 60_000})
+PLANS["C17"]["thorough"] += [{"cfg": c, "prof": "C17big", "runs": 2_000_000} for c in ("dbg", "alloc")]
 PLANS["C04"]["quick"].append({"cfg": "dbg", "prof": "C04io", "mode": "garbage", "runs": 100_000})
 PLANS["C04"]["thorough"] += [
     {"cfg": "dbg", "prof": "C04io", "mode": "garbage", "runs": 4_000_000},
